@@ -489,23 +489,68 @@ def write_if_changed(path, text):
   return False
 
 
-_last = None
+_cache = {}
 
 
-def regenerate(repo=None, force=False):
-  """extract + emit; runs once per process unless forced. Returns a summary dict."""
-  global _last
-  if _last is not None and not force:
-    return _last
-  from .common import REPO
-  repo = repo or REPO
-  recs, problems = extract(repo)
+def extract_isolated(repo):
+  """run `extract` in a fresh interpreter: `device_kit` may already be imported in this process from ANOTHER
+  checkout (check.py regenerates from /repo after a run against a scratch DK_REPO), and the extraction must
+  describe exactly the checkout it is asked about."""
+  import subprocess
+  r = subprocess.run([sys.executable, os.path.abspath(__file__), '--extract', repo], capture_output=True, text=True, timeout=300)
+  if r.returncode != 0:
+    raise AssertionError('class-table extraction from %s failed: %s' % (repo, (r.stderr or r.stdout)[-1500:]))
+  d = json.loads(r.stdout)
+  recs = d['records']
+  for rec in recs:     # JSON turned the tuples into lists
+    rec['sig_params'] = [tuple(x) for x in rec['sig_params']]
+    if rec['init'] is not None:
+      rec['init']['params'] = [tuple(x) for x in rec['init']['params']]
+      rec['init']['ops'] = [tuple(x) for x in rec['init']['ops']]
+    if rec['dump'] is not None:
+      rec['dump'] = [tuple(x) for x in rec['dump']]
+  return recs, d['problems']
+
+
+def not_understood(recs):
+  """`.unknown` steps, as text: these make the table theorems fail (the unit is outside the understood subset)."""
+  out = []
+  for r in recs:
+    for o in ((r['init'] or {}).get('ops') or []):
+      if o[0] == 'unknown': out.append('%s.__init__ @ %s' % (r['name'], o[1]))
+    for o in (r['dump'] or []):
+      if o[0] == 'unknown': out.append('%s.to_dict @ %s' % (r['name'], o[1]))
+  return out
+
+
+def regenerate(repo=None):
+  """T1 for the class table: extract from `repo` (default DK_REPO), write lean/DK/Gen/Classes.lean only if its
+  text changed. Returns {'changed', 't1_units', 't1_fallback_units', …} (interface of vk.translate.regenerate_all);
+  the result is cached per checkout path and source mtimes, so a check run extracts once."""
+  if repo is None:
+    from .common import REPO
+    repo = REPO
+  repo = os.path.realpath(repo)
+  pkg = os.path.join(repo, 'device_kit')
+  stamp = tuple(sorted((f, os.stat(os.path.join(pkg, f)).st_mtime_ns) for f in os.listdir(pkg) if f.endswith('.py')))
+  hit = _cache.get(repo)
+  if hit is None or hit[0] != stamp:
+    recs, problems = extract_isolated(repo)
+    hit = (stamp, recs, problems)
+    _cache[repo] = hit
+  _, recs, problems = hit
   changed = write_if_changed(os.path.join(GEN, 'Classes.lean'), emit(recs, problems))
-  _last = {'changed': changed, 'classes': [r['name'] for r in recs], 'problems': problems, 'diagnosis': diagnose(recs), 'records': recs,
-           't1_units': ['%s @ %s' % (r['name'], r['where']) for r in recs]}
-  return _last
+  return {'changed': changed, 't1_units': ['%s @ %s' % (r['name'], r['where']) for r in recs],
+          't1_fallback_units': list(problems) + not_understood(recs),
+          'classes': [r['name'] for r in recs], 'problems': problems, 'diagnosis': diagnose(recs), 'records': recs}
 
 
 if __name__ == '__main__':
-  r = regenerate(sys.argv[1] if len(sys.argv) > 1 else None)
-  print(json.dumps({k: v for k, v in r.items() if k != 'records'}, indent=1))
+  if len(sys.argv) == 3 and sys.argv[1] == '--extract':
+    recs, problems = extract(sys.argv[2])
+    print(json.dumps({'records': recs, 'problems': problems}))
+  else:
+    sys.path.insert(0, os.path.dirname(HERE))
+    from vk import translate_classes as _tc     # so that relative imports work when run as a script
+    r = _tc.regenerate(sys.argv[1] if len(sys.argv) > 1 else None)
+    print(json.dumps({k: v for k, v in r.items() if k != 'records'}, indent=1))
